@@ -362,7 +362,7 @@ def r7(ctx):
     b, e = oks[0]
     ctx.require_guards(bd, b.idx, [
         ("count == 1", g_rel("Eq", lambda x: mentions_call(x, r"ReadCursor::read_u8$"), lambda x: const_value(prog, x) == 1)),
-        ("sub-cursor exhausted (expect_empty()?)", g_is(lambda x: mentions_call(x, r"ReadCursor::expect_empty$"), "Continue")),
+        ("sub-cursor exhausted (expect_empty()?)", g_is(lambda x: mentions_call(x, r"ReadCursor::expect_empty$") and mentions_call(x, r"ReadCursor::new$") and mentions_call(x, r"ReadCursor::read_bytes$") and not (x[0] == "try" and x[1][0] == "call" and x[1][2] and x[1][2][0] == ("field", ("param", "self"), "cursor")), "Continue")),
         ("variation parsed", g_is(lambda x: mentions_call(x, r"FreeFormatVariation::parse$"), "Continue")),
     ], "free-format:Ok", "Ok(header) of parse_free_format_u16")
     for c in call_sites(bd, r"FreeFormatVariation::parse$"):
@@ -412,6 +412,123 @@ def r8(ctx):
         ctx.check(not bad, "iter:%s:index-cannot-overflow" % name, "%s advances its index without a checked `+ 1`" % name, bd.where(bad[0].idx) if bad else bd.where(line=bd.line), bad_detail="%s::next advances its u16 index with a plain `+ 1`: a range ending at index 65535 overflows after yielding the last element (panic with overflow checks)" % name)
 
 
+BITS = {"u8": 8, "i8": 8, "u16": 16, "i16": 16, "u32": 32, "i32": 32, "u64": 64, "i64": 64, "f32": 32, "f64": 64}
+ATTR_CODECS = [
+    # writer enum, its constructor, the parser, signed?
+    ("app::attr::Int", "app::attr::AttrValue::parse_signed_int", True),
+    ("app::attr::UInt", "app::attr::AttrValue::parse_unsigned_int", False),
+]
+
+
+def _op_ty(callee):
+    m = re.search(r"::(?:read|write)_([uif]\d+)(?:_le)?$", callee or "")
+    return m.group(1) if m else None
+
+
+def r9(ctx):
+    """Device attribute (group 0) integer / float values: for every encoded length the writer's cursor operation and the parser's
+    have the same width, and the parser restores the sign the writer's narrowing kept: a value widened to the result type is
+    widened FROM a type of the signedness of the attribute (reading a two's complement byte as u8 and widening turns -1 into 255)."""
+    prog = ctx.prog
+    for enum, parser, signed in ATTR_CODECS:
+        wl = {}
+        lb = prog.body(enum + "::len")
+        for keys, e, blk in extract_table(ctx, lb, subject=lambda x: x == ("param", "self")):
+            for k in keys:
+                wl[k[1]] = const_value(prog, e)
+        wb = prog.body(enum + "::write")
+        wop = {}
+        for c in wb.calls():
+            t = _op_ty(c.term.callee or c.term.declared)
+            gs = [g for g in ctx.guards_at(wb, c.idx) if g.kind == "is" and g.a == ("param", "self")]
+            if t and gs:
+                wop[gs[-1].name] = t
+        if len(wl) < 3 or set(wl) != set(wop):
+            raise AnchorError("%s: len table %s / write table %s" % (enum, wl, wop))
+        pb = prog.body(parser)
+        sym = ctx.sym(pb)
+        arms = {}
+        for b, si, st, e in ret_sites(pb, sym):
+            if e[0] == "agg" and e[2] == "Ok":
+                ln = [g.name for g in ctx.guards_at(pb, b.idx) if g.kind == "int" and g.a == ("param", "len")]
+                if ln:
+                    arms[ln[-1]] = (b, agg_field(e, "0"))
+        name = enum.split("::")[-1]
+        for v, n_ in sorted(wl.items()):
+            ctx.check(BITS.get(wop[v]) == 8 * n_, "attr:%s:%s:write-width" % (name, v), "%s::%s is announced with length %s and written with %s" % (name, v, n_, wop[v]), wb.where(line=wb.line))
+            if n_ not in arms:
+                ctx.bad("attr:%s:%s:parsed" % (name, v), "length %s written by %s::%s has no arm in %s" % (n_, name, v, parser), pb.where(line=pb.line))
+                continue
+            b, e = arms[n_]
+            reads = [x for x in expr_walk(e) if x[0] == "call" and _op_ty(x[1])]
+            ctx.check(len(reads) == 1 and BITS.get(_op_ty(reads[0][1])) == 8 * n_, "attr:%s:%s:read-width" % (name, v), "length %s is parsed with %s" % (n_, [short(x[1]) for x in reads]), pb.where(b.idx))
+            # sign: every widening cast on the way to the result starts from a type of the attribute's signedness
+            wid = [x for x in expr_walk(e) if x[0] == "cast" and BITS.get(x[1], 0) > BITS.get(x[3], 99)]
+            rd_ty = _op_ty(reads[0][1]) if reads else "?"
+            eff = [x[3] for x in wid] or [rd_ty]
+            ok = all(t.startswith("i") == signed for t in eff)
+            ctx.check(ok, "attr:%s:%s:sign" % (name, v), "length %s: value reaches the result as %s (%s)" % (n_, "/".join(eff), "signed" if signed else "unsigned"), pb.where(b.idx), bad_detail="%s arm `len == %s` widens the value from %s: a %s attribute written in %s byte(s) is parsed back as a different number (e.g. -1 as %d)" % (parser.split("::")[-1], n_, "/".join(eff), "signed" if signed else "unsigned", n_, (1 << (8 * n_)) - 1))
+        extra = set(arms) - set(wl.values())
+        ctx.check(True, "attr:%s:parser-lengths" % name, "parser accepts lengths %s; writer emits %s" % (sorted(arms), sorted(wl.values())), pb.where(line=pb.line))
+        # the constructor picks a variant whose type can hold the value it is given (narrowing only under its range test)
+        nb = prog.body(enum + "::new")
+        for b, si, st, e in ret_sites(nb, ctx.sym(nb)):
+            if e[0] != "agg":
+                continue
+            v = e[2]
+            val = agg_field(e, "0")
+            if val[0] == "cast" and BITS.get(val[1], 99) < BITS.get(val[3], 0):
+                gs = ctx.guards_at(nb, b.idx)
+                ok = any((g.kind == "bool" and g.truth is True and mentions_call(g.a, r"Range(Inclusive)?::contains$")) or (g.kind == "rel" and g.op in ("Le", "Lt") and g.a == ("param", "value")) for g in gs)
+                ctx.check(ok, "attr:%s:%s:narrow-under-range-test" % (name, v), "%s::%s narrows the value only under its range test" % (name, v), nb.where(b.idx))
+    # floats: length 4 <-> f32, 8 <-> f64 on both sides
+    fb = prog.body("app::attr::AttrValue::parse_floating_point")
+    fs = ctx.sym(fb)
+    for b, si, st, e in ret_sites(fb, fs):
+        if e[0] == "agg" and e[2] == "Ok":
+            ln = [g.name for g in ctx.guards_at(fb, b.idx) if g.kind == "int" and g.a == ("param", "len")]
+            reads = [x for x in expr_walk(e) if x[0] == "call" and _op_ty(x[1])]
+            ctx.check(bool(ln) and len(reads) == 1 and BITS.get(_op_ty(reads[0][1])) == 8 * ln[-1] and variant_name(agg_field(e, "0")) == _op_ty(reads[0][1]).upper(), "attr:float:len%s" % (ln[-1] if ln else "?"), "length %s is parsed as %s" % (ln, [short(x[1]) for x in reads]), fb.where(b.idx))
+    wf = prog.body("app::attr::OwnedAttrValue::write_float")
+    ws = ctx.sym(wf)
+    for c in wf.calls():
+        t = _op_ty(c.term.callee or c.term.declared)
+        if not t:
+            continue
+        gs = [g for g in ctx.guards_at(wf, c.idx) if g.kind == "is" and g.a == ("param", "x")]
+        hdr = [h for h in call_sites(wf, r"write_header$") if wf.block_dominates(h.idx, c.idx) and (not gs or wf.edge_dominates(gs[-1].edge, h.idx))]
+        ln = const_value(prog, ws.call_expr(hdr[-1].term)[2][-1]) if hdr else None
+        ctx.check(bool(gs) and gs[-1].name == t.upper() and ln is not None and 8 * ln == BITS[t], "attr:float:write:%s" % t, "FloatType::%s is announced with length %s and written with %s" % (gs[-1].name if gs else "?", ln, t), wf.where(c.idx))
+
+
+def r10(ctx):
+    """Back-patching of bytes already in the fragment (a count, a range stop, a packed bit byte) through WriteCursor::at_pos is the
+    last fallible step of its function: WriteCursor::transaction restores only the position, never patched bytes, so an append
+    that fails AFTER the patch leaves a header announcing an object that is not there (the peer's parser rejects the fragment)."""
+    prog = ctx.prog
+    n = 0
+    for bd in prog.bodies.values():
+        if "::test" in bd.path or not bd.path.startswith("dnp3::"):
+            continue
+        sites = call_sites(bd, r"WriteCursor::at_pos$")
+        if not sites:
+            continue
+        sym = ctx.sym(bd)
+        rets = list(ret_sites(bd, sym))
+        for c in sites:
+            n += 1
+            own = sym.call_expr(c.term)
+            after = set()
+            for s_ in bd.succs(c.idx):
+                after |= bd.reachable(s_)
+            late = [(b, e) for b, si, st, e in rets if b.idx in after and e[0] == "call" and e[1].endswith("from_residual") and not (e[2] and e[2][0][0] == "tryerr" and e[2][0][1] == own)]
+            late += [(b, e) for b, si, st, e in rets if b.idx in after and e[0] == "agg" and e[2] == "Err"]
+            name = "::".join(bd.path.replace("::{closure#0}", "").split("::")[-2:])
+            ctx.check(not late, "patch-last@%s#%d" % (name, sites.index(c)), "no error exit after the at_pos patch", bd.where(c.idx), bad_detail="%s patches bytes already written (at_pos) and can still fail afterwards at %s: a rolled-back transaction keeps the patch, the header then announces an object that was not written" % (name, ", ".join(bd.where(b.idx) for b, _ in late[:3])))
+    if n < 7:
+        raise AnchorError("at_pos patch sites: %d (expected >= 7)" % n)
+
+
 RULES = [
     ("C09.R1", "T6", "FixedSize codecs: read sequence = write sequence, widths sum to SIZE", r1),
     ("C09.R2", "T4", "Variation::lookup / to_group_and_var inverse; names equal numbers; VARIATION constants", r2),
@@ -420,4 +537,6 @@ RULES = [
     ("C09.R6", "T5", "validation and iteration are the same pass over the stored options", r6),
     ("C09.R7", "T2", "free-format: count == 1 and an exhausted sub-cursor", r7),
     ("C09.R8", "T2/T8", "sequences take exactly their byte count before decoding; iterator indices cannot wrap", r8),
+    ("C09.R10", "T3", "back-patched counts / range stops are written after the data they announce", r10),
+    ("C09.R9", "T6/T10", "device attribute values: writer and parser agree on width and signedness for every encoded length", r9),
 ]
